@@ -187,7 +187,7 @@ BEGIN
   INSERT INTO sim_audit(kind,tbl,row_id,old,new,extra,ctx)
   VALUES('ev_ins', 'events', CAST(new.sequence AS TEXT), NULL, new.event_type,
          json_object('entity_type', new.entity_type, 'entity_id', new.entity_id,
-                     'workflow_id', new.workflow_id, 'data', new.data, 'metadata', new.metadata), sim_ctx());
+                     'workflow_id', new.workflow_id, 'data', new.data, 'source', new.source_handler), sim_ctx());
 END;
 """
 
@@ -250,7 +250,7 @@ class World:
         self.durable_seq = 0
         self.ledger: list[dict[str, Any]] = []
         self.handler_calls: dict[str, int] = {}      # message_id -> handler invocations
-        self.handler_log: list[tuple[int, str, str, int]] = []  # (inc, type, message_id, commit_count)
+        self.handler_log: list[tuple[int, str, str, int, int]] = []  # (inc, type, message_id, commit_count, durable audit seq)
         self.bus_log: list[dict[str, Any]] = []
         self.ctx: dict[int, tuple[str, str]] = {}    # worker -> (handler, message id)
         self.thread_worker: dict[int, int] = {}
@@ -258,6 +258,9 @@ class World:
         self.crashes: list[dict[str, Any]] = []
         self.io_fault_commits: dict[int, str] = {}   # global commit index -> error text
         self.io_fault_stmts: dict[int, str] = {}     # global statement index -> error text
+        self.fault_after_event_n: int | None = None   # inject an I/O error right after the n-th INSERT INTO events
+        self._ev_inserts = 0
+        self._fault_next_on: Any = None
         self.faults_fired: dict[str, int] = {}
         self.probes: dict[str, int] = {}
         self.notes: list[str] = []
@@ -340,6 +343,14 @@ class World:
             elif "mmap_size" in low:
                 sql = "PRAGMA mmap_size = 0"
         err = self.io_fault_stmts.pop(self.stmt_count, None)
+        if self._fault_next_on is conn:
+            self._fault_next_on = None
+            err = "disk I/O error"
+            self.fault("io_after_event_append")
+        if self.fault_after_event_n is not None and "INSERT INTO events" in sql:
+            self._ev_inserts += 1
+            if self._ev_inserts == self.fault_after_event_n:
+                self._fault_next_on = conn
         if err is not None:
             self.fault("io_stmt:" + err)
             if "locked" not in err and conn.in_transaction:
@@ -366,6 +377,10 @@ class World:
         if self.crash_at == (n, "before"):
             self._crash_now(n, "before")
         err = self.io_fault_commits.pop(n, None)
+        if self._fault_next_on is conn:
+            self._fault_next_on = None
+            err = "disk I/O error"
+            self.fault("io_after_event_append")
         if err is not None:
             self.fault("io_commit:" + err)
             if "locked" not in err:
@@ -564,7 +579,9 @@ class World:
         world = self
 
         def on_event(ev: Any) -> None:
+            dur = world.hquery("SELECT 1 FROM events WHERE sequence = ?", (ev.sequence,))
             world.bus_log.append({
+                "durable": bool(dur),
                 "seq": ev.sequence, "type": ev.event_type.value, "entity": ev.entity_id,
                 "inc": world.incarnation, "commit_count": world.commit_count,
                 "durable_seq": world.durable_seq,
@@ -601,7 +618,7 @@ class World:
             def handle(self, message: Any) -> None:
                 mid = str(getattr(message, "message_id", ""))
                 world.handler_calls[mid] = world.handler_calls.get(mid, 0) + 1
-                world.handler_log.append((world.incarnation, type(message).__name__, mid, world.commit_count))
+                world.handler_log.append((world.incarnation, type(message).__name__, mid, world.commit_count, world.durable_seq))
                 self.inner.handle(message)
 
         for mt, h in list(proc._handlers.items()):
@@ -643,6 +660,30 @@ class World:
             return cur.rowcount
         finally:
             self.ctx[wk] = prev
+
+    def as_client(self, name: str = "client") -> Any:
+        """Context manager for actions of a *client* process (submit, cancel, send_signal, injected
+        messages): tagged in the audit, and never a crash point of the simulated worker."""
+        import contextlib
+
+        world = self
+
+        @contextlib.contextmanager
+        def cm() -> Any:
+            wk = world.current_worker()
+            prev = world.ctx.get(wk, ("idle", ""))
+            saved, world.crash_at = world.crash_at, None
+            world.ctx[wk] = (name, "")
+            try:
+                yield
+            finally:
+                world.ctx[wk] = prev
+                if world.crash_at is None:
+                    if saved is not None and saved[0] <= world.commit_count:
+                        saved = (world.commit_count + 1, saved[1])   # the client's own commits do not count
+                    world.crash_at = saved
+
+        return cm()
 
     def audit(self, since: int = 0) -> list[dict[str, Any]]:
         rows = self.hquery("SELECT seq,kind,tbl,row_id,old,new,extra,ctx FROM sim_audit WHERE seq > ? ORDER BY seq",
